@@ -3,7 +3,7 @@
 // Contracts for package path (without the generated peg.go), checked by /verif/govc (comment-only; compiled only with -tags verif).
 package path
 
-//@ prelude c16
+//@ prelude c16 c15
 
 //@ func build(source string, parsed any) PropertyPath
 //@   ensures-assumed [C16:A-PURE] result == buildF(source, parsed)
@@ -18,3 +18,12 @@ package path
 //@ func ParsePath(path string) (PropertyPath, error)
 //@   ensures [C16:empty-is-null-path] path == "" ==> (result1 == nil && is(result0, path.NullPath) && result0.(path.NullPath).source == "")
 //@   ensures [C16:error-or-path] path != "" ==> (result1 != nil ==> result0 == nil)
+
+// ---- everything that reaches the policy goes through Expand (C15) -----------------------------------------------------
+
+//@ func (p Property) Expanded(iriExpander *misc.IriExpander) (string, error)
+//@   ensures [C15:expanded-iri] iriExpander != nil ==> (result0 == expandF(mapvals(deref(iriExpander).Context), mapdom(deref(iriExpander).Context), p.Iri) && result1 == expandErrF(mapvals(deref(iriExpander).Context), mapdom(deref(iriExpander).Context), p.Iri))
+
+//@ func (p Property) IsCustom(iriExpander *misc.IriExpander) bool
+//@   requires iriExpander != nil
+//@   ensures [C15:custom-by-namespace-not-by-prefix] result == (expandErrF(mapvals(deref(iriExpander).Context), mapdom(deref(iriExpander).Context), p.Iri) == nil && indexOf(expandF(mapvals(deref(iriExpander).Context), mapdom(deref(iriExpander).Context), p.Iri), contexts.ApiExtensionUri) == 0)
